@@ -35,6 +35,17 @@ theorem set_fmt (R : Render K Unit) {s : St K Unit Q} {l : List (K × Unit)} (hr
   refine ⟨?_, ?_, ?_⟩ <;>
     simp [fmtSet, bind_apply, Micromap.getS, entriesOf_ok hr, Fmt.displaySetCode_eq]
 
+/-- `Display` writes `{`, the entries and `}` directly: width, fill, alignment and the alternate flag
+    of the caller's format spec change nothing (`{:>30}`, `{:#}`); `{:30?}` hands the width to the
+    elements only, the layout is that of `{:?}`. -/
+theorem fmt_flags_ignored (R : Render K V) (s : St K V Q) :
+    fmtMap R .displayPad s = fmtMap R .display s ∧ fmtMap R .displayAlt s = fmtMap R .display s ∧
+    fmtMap R .debugPad s = fmtMap R .debug s := ⟨rfl, rfl, rfl⟩
+
+theorem set_fmt_flags_ignored (R : Render K Unit) (s : St K Unit Q) :
+    fmtSet R .displayPad s = fmtSet R .display s ∧ fmtSet R .displayAlt s = fmtSet R .display s ∧
+    fmtSet R .debugPad s = fmtSet R .debug s := ⟨rfl, rfl, rfl⟩
+
 /-- the hand-written `Display` loop (first entry, then `", "`-prefixed entries) is the documented
     `'{' entries joined by ", " '}'`, for every content including empty and one entry. -/
 theorem display_is_joined (R : Render K V) (l : List (K × V)) :
